@@ -76,6 +76,10 @@ def tokenize(
                 else:
                     yield token
                     token = Token(source=formula)
+            elif not quote_context:
+                # An empty quoted region leaves nothing behind (in particular
+                # not the position at which it started).
+                token = Token(source=formula)
             continue
         if quote_context and char == quote_context[-1]:
             token.update(char, i)
